@@ -14,7 +14,7 @@
   * `Wo`, `Wc` the largest fan-out of an object / a specification node.
   Taking up a new pair costs at most `costA` = 1 + (Wo + Wc + 2)(Wc + 3) later loop iterations (it queues at
   most Wo + Wc children, each of which is worth at most Wc + 3 iterations when it is a disjunction), hence
-      workBound = costA * |pairU| + Wc + 5.
+      workBound = costA * |objU| * |chkU| + Wc + 5        (|pairU| = |objU| * |chkU|).
 -/
 import Parsley.Model.TypeCheck
 import Parsley.Spec.Conforms
@@ -66,7 +66,7 @@ def costA (g : Graph) (ctx : Ctx) (o : Obj) (c : Chk) : Nat :=
 /-- bound on the iterations of the `get_next_check` loop (hence on work-loop iterations) for the
     normalised root check `c` -/
 def bound (g : Graph) (ctx : Ctx) (o : Obj) (c : Chk) : Nat :=
-  costA g ctx o c * (pairU g ctx o c).length + Wc ctx c + 5
+  costA g ctx o c * ((objU g o).length * (chkU ctx c).length) + Wc ctx c + 5
 
 /-- the bound for a call `check_type(ctxt, tctx, obj, chk)` -/
 def workBound (fx : Fix) (g : Graph) (ctx : Ctx) (o : Obj) (chk : Chk) : Nat :=
